@@ -567,4 +567,18 @@ example : (exCyl : Grid ℚ).containsGrid [2, 10] = true ∧ (exCyl : Grid ℚ).
 example : (exCart : Grid ℚ).randomPointCart (1/4) [1/2, 1] = [1, 63/4] := by decide +kernel
 example : (exCyl : Grid ℚ).randomRadialDraw (1/2) true [1/2, 1/4] = [17/4, 11/4] := by decide +kernel
 
+/-- **witness of a deviation in /repo** (reported, patch in notes/proposed_fixes/C12-cylinder-reversed-bounds-z.diff):
+`CylindricalSymGrid(1, (1, 0), (2, 2))` - `bounds_z` reversed - is accepted by the constructor (unlike
+`CartesianGrid`, which flips reversed bounds, and unlike the radius, which is validated): the `z` axis has
+`lo = 1 > hi = 0`, the spacing is `-1/2`, the cell volumes and the volume are negative (`-pi`, here with
+`pi := 1`).  This is exactly the case the hypothesis `Ctor.Valid` of `constructed_centres_and_dx` excludes. -/
+theorem cylinder_reversed_bounds_z_accepted :
+    constructView (.cylindrical (.outer (1 : ℚ)) 1 0 [2, 2] false)
+      = .ok (.cylindrical, [(0, 1, 2, false), (1, 0, 2, false)]) ∧
+    (⟨.cylindrical, [⟨0, 1, 2, false⟩, ⟨1, 0, 2, false⟩]⟩ : Grid ℚ).discretization = [1/2, -1/2] ∧
+    (⟨.cylindrical, [⟨0, 1, 2, false⟩, ⟨1, 0, 2, false⟩]⟩ : Grid ℚ).volume 1 = -1 ∧
+    ¬ (Ctor.cylindrical (.outer (1 : ℚ)) 1 0 [2, 2] false).Valid := by
+  refine ⟨by decide +kernel, by decide +kernel, by decide +kernel, ?_⟩
+  simp [Ctor.Valid]
+
 end PdeVerif.Grids
